@@ -122,5 +122,37 @@ Section RevProg.
         { destruct (dx j); cbn [andb]; [apply (acom_pmul_l n F P S HF Ho WS)| now rewrite xorb_false_r]. }
         rewrite E1. destruct (acom F S), (dx j), (acom P S), (dotp pend fl), (ext_par p (tl d)); reflexivity.
   Qed.
+
+  (* ---------- the sampler's records: reference xor flips ---------- *)
+  Lemma fprun_par prog : forall l F rr ra fl zs d, realize extr rr prog l ->
+    (forall k, xorb (nth k rr false) (nth k ra false) = nth k fl false) ->
+    par_rec (fprun extr exta F rr ra zs prog l) d = xorb (par_rec l d) (fparp F fl zs prog d).
+  Proof.
+    induction prog as [|o p IH]; intros l F rr ra fl zs d Hre Hfl.
+    - inversion Hre; subst. reflexivity.
+    - inversion Hre as [| ? C Ci ? l' Hre' | ? M b ? l' Hre' | ? P c ? l' Hre']; subst; cbn [fprun fparp par_rec].
+      + apply IH; assumption.
+      + rewrite (IH l' _ (b :: rr) (xorb b (acom F M) :: ra) (acom F M :: fl) (tl zs) (tl d) Hre').
+        * generalize (fparp (if hd false zs then pmul F M else F) (acom F M :: fl) (tl zs) p (tl d)). intros X.
+          destruct (hd false d), b, (acom F M), (par_rec l' (tl d)), X; reflexivity.
+        * intros [|k]; cbn [nth]; [destruct b, (acom F M); reflexivity| apply Hfl].
+      + destruct c as [k|j]; cbn [cval].
+        * rewrite (Hfl k). apply IH; assumption.
+        * apply IH; assumption.
+  Qed.
+
+  (* ---------- every shot: the detector is the reference value xor the faults that anticommute with its sensitivity ---------- *)
+  Notation Inv := (Run.Inv n).
+  Theorem detector_in_every_shot prog l la s s' Sg S' d : Forall (okp n) prog -> good (fst s) (snd s) -> Inv (fst s) Sg ->
+    realize extr [] prog l -> sim_run n s l s' -> realize exta [] prog la -> sem_run Sg la S' ->
+    gauge_okp prog d -> (forall g, wf g -> Sg g -> acom g (fst (bt prog d)) = false) ->
+    par_rec la d = xorb (par_rec l d) (ext_par prog d).
+  Proof.
+    intros Hok G I Hre Hrun Hra Halt Hg Hinit.
+    destruct (fp_complete n extr exta prog l la s s' Sg S' [] [] Hok G I Hre Hrun Hra Halt) as (g & zs & Wg & Sg_g & E).
+    rewrite <- E. rewrite (fprun_par prog l g [] [] [] zs d Hre) by (intros [|k]; reflexivity).
+    rewrite (fparp_closed_form prog g [] zs d Hok Wg Hg), (Hinit g Wg Sg_g). cbn [dotp]. rewrite xorb_false_l. reflexivity.
+  Qed.
 End RevProg.
 Print Assumptions fparp_closed_form.
+Print Assumptions detector_in_every_shot.
